@@ -33,6 +33,15 @@ import (
 //	reconf  configuration changes between sends, all three modes: default license changed (and changed back) by
 //	        assignment and by ApplyConfig (which drops the connection and re-dials; the server list points away until
 //	        it is assigned again), sends with and without per-send license before, between and after
+//	multi   2..3 collectors (server addresses), each with its own listener and script, the client's server list a
+//	        permutation of them: per phase every collector goes down (listener, and the connection the client holds
+//	        there) and comes back on its own -- one at a time walking the list from its end to its start, and random
+//	        subsets --, the list is re-ordered / shortened / restored by assignment, packs are handed over in every
+//	        phase (direct, 1..2 senders; queue drained by SendAndClear)
+//	stall   the collector STALLS at the n-th frame of a connection (before it / in its header / in the middle / one
+//	        byte before its end): it stays connected but does not read, the client (write deadline shortened between
+//	        sends by assignment to Timeout) hands over frames of 0.3..3 MiB until a write deadline expires in the middle
+//	        of a frame; the collector resumes at once or after the client has gone on; direct mode and SendAndClear
 //
 // Every generator hands its packs over through all public entry points (Send, SendFlush(false), SendFlush(true)) and
 // with plain and decorated per-send options; direct, fault, sac and worker also change the configuration between
@@ -110,6 +119,8 @@ func Run(c *core.Ctx) error {
 	js = append(js, mk("fault", c.Pick(24, 200), genFault)...)
 	js = append(js, mk("sac", c.Pick(10, 80), genSac)...)
 	js = append(js, mk("qfull", c.Pick(12, 24), genQfull)...)
+	js = append(js, mk("multi", c.Pick(9, 60), genMulti)...)
+	js = append(js, mk("stall", c.Pick(8, 48), genStall)...)
 	run(tm, parallel, js)
 	return nil
 }
@@ -261,7 +272,7 @@ func (sc *scenario) cutCurrent(kind string) {
 	sc.quiesce()
 	sc.settle()
 	n := int(atomic.LoadInt32(&sc.connOK))
-	if cr := sc.col.conn(n - 1); cr != nil && !isDone(cr) {
+	if cr := sc.connRec(n - 1); cr != nil && !isDone(cr) {
 		cr.cutNow(kind)
 	}
 }
@@ -984,4 +995,257 @@ func genReconf(r *rand.Rand, gen string, cas int) *scenario {
 	}
 	phase(2)
 	return sc
+}
+
+// ---------------------------------------------------------------- multi: several collectors, each down and up on its own
+
+func genMulti(r *rand.Rand, gen string, cas int) *scenario {
+	ncol := 2 + cas%2
+	mode := []string{"direct", "direct", "sac"}[(cas/2)%3]
+	srv := r.Perm(ncol) // the client's server list, in its order of preference
+	cols := make([]colConf, ncol)
+	if r.Intn(3) == 0 {
+		cols[r.Intn(ncol)].cuts = map[int]cutSpec{0: randCut(r, 4)}
+	}
+	senders := 1
+	if cas%5 == 4 {
+		senders = 2
+	}
+	sc, err := newScenario(gen, cas, r, scConf{mode: mode, qcap: 1000, cols: cols, srv: srv, nondet: senders > 1})
+	if err != nil {
+		return nil
+	}
+	sc.nsend = senders
+	for i := range cols {
+		sc.describeCutsAt(i, cols[i].cuts)
+	}
+	size := smallSize
+	if cas%4 == 3 {
+		size = mediumSize
+	}
+	hand := func(per int) {
+		sc.runAll(sc.batch(r, senders, per, size))
+		if mode == "sac" {
+			sc.drainN(4)
+		}
+	}
+	up := make([]bool, ncol)
+	for i := range up {
+		up[i] = true
+	}
+	cur := append([]int(nil), srv...) // the server list now
+	phases := 5 + r.Intn(4)
+	desc := ""
+	for ph := 0; ph < phases; ph++ {
+		want := make([]bool, ncol)
+		if cas%3 == 0 && ph <= ncol {
+			// one collector at a time, walking the server list from its end to its start (and round again)
+			want[srv[(2*ncol-1-ph)%ncol]] = true
+		} else {
+			for i := range want {
+				want[i] = r.Intn(20) < 11
+			}
+		}
+		// the collectors that go away first (listener; the connection the client holds there mostly goes with it),
+		// then the ones that come back: no dial is in progress, every sender has returned
+		for i := 0; i < ncol; i++ {
+			if up[i] && !want[i] {
+				if at, ok := sc.connectedAt(); ok && at == i && r.Intn(4) != 0 {
+					sc.cutCurrent([]string{"closed", "reset"}[r.Intn(2)])
+				}
+				sc.listenerDownAt(i)
+				up[i] = false
+			}
+		}
+		for i := 0; i < ncol; i++ {
+			if !up[i] && want[i] {
+				sc.listenerUpAt(i)
+				up[i] = true
+			}
+		}
+		d := ""
+		for i := range up {
+			if up[i] {
+				d += sc.cols[i].name
+			}
+		}
+		desc += d + "/"
+		// now and then the server list changes by assignment: another order, one server less, the first list again;
+		// or a reloaded configuration (ApplyConfig: the list points nowhere until it is assigned again)
+		switch r.Intn(8) {
+		case 0:
+			cur = permuted(r, cur)
+			sc.reconfSrv("field", sc.curLic, sc.curCap, cur)
+		case 1:
+			if len(cur) > 1 {
+				k := r.Intn(len(cur))
+				cur = append(append([]int(nil), cur[:k]...), cur[k+1:]...)
+			} else {
+				cur = append([]int(nil), srv...)
+			}
+			sc.reconfSrv("field", sc.curLic, sc.curCap, cur)
+		case 2:
+			if mode != "worker" {
+				sc.reconf("apply", sc.otherLic(r), 0, false)
+				if r.Intn(2) == 0 {
+					hand(1)
+				}
+				cur = append([]int(nil), srv...)
+				sc.serversBack()
+			}
+		}
+		hand(2 + r.Intn(3))
+	}
+	sc.cutDesc = append(sc.cutDesc, fmt.Sprintf("%d collectors/up:%s", ncol, desc))
+	// at the end every collector is back and the whole list is configured
+	for i := 0; i < ncol; i++ {
+		if !up[i] {
+			sc.listenerUpAt(i)
+		}
+	}
+	if len(cur) != len(srv) {
+		sc.reconfSrv("field", sc.curLic, sc.curCap, srv)
+	}
+	hand(4)
+	if mode == "sac" {
+		sc.drainAll()
+	}
+	return sc
+}
+
+func permuted(r *rand.Rand, a []int) []int {
+	out := make([]int, len(a))
+	for i, j := range r.Perm(len(a)) {
+		out[i] = a[j]
+	}
+	return out
+}
+
+// connectedAt: the collector of the connection the client holds (hook view), if it holds one.
+func (sc *scenario) connectedAt() (int, bool) {
+	sc.mu.Lock()
+	defer sc.mu.Unlock()
+	if atomic.LoadInt32(&sc.connected) != 1 || len(sc.connAt) == 0 {
+		return 0, false
+	}
+	return sc.connAt[len(sc.connAt)-1], true
+}
+
+func (sc *scenario) describeCutsAt(ci int, cuts map[int]cutSpec) {
+	for i := 0; i < 8; i++ {
+		if cs, ok := cuts[i]; ok {
+			sc.cutDesc = append(sc.cutDesc, fmt.Sprintf("%s.c%d:%d/%s/%s", sc.cols[ci].name, i, cs.Frame, cs.Where, cs.Kind))
+		}
+	}
+}
+
+// ---------------------------------------------------------------- stall: the collector stops reading, the write deadline expires
+
+// The client's write deadline (its exported Timeout, also its dial timeout) is shortened by assignment only for the
+// sends that go into the stalled connection (a connection exists: none of them dials) and restored before any other:
+// a deadline that expires although the collector is reading (machine load) is reported by the client as what it is
+// (tmo) and is a stall to the specification; it can only cost detection.
+const stallDeadline = 120 * time.Millisecond
+const calmDeadline = 10 * time.Second
+
+func heavySize(style int) func(r *rand.Rand) int {
+	return func(r *rand.Rand) int {
+		switch {
+		case style == 0 || (style == 2 && r.Intn(2) == 0):
+			return 300<<10 + r.Intn(1600<<10) // fits the 2 MiB writer: goes out with the flush
+		default:
+			return 2<<20 + r.Intn(1<<20) // larger than the writer: written through inside send()
+		}
+	}
+}
+
+func genStall(r *rand.Rand, gen string, cas int) *scenario {
+	mode := []string{"direct", "direct", "sac"}[cas%3]
+	where := []string{"mid", "before", "last", "header"}[(cas/3)%4]
+	n0 := 1 + r.Intn(3) // healthy small frames first (the connection exists before the deadline is shortened)
+	st := newStall(r.Intn(n0+2), where)
+	onConn := 0
+	if cas%4 == 3 {
+		onConn = 1 // the stall hits the client's second connection
+	}
+	late := (cas/2)%2 == 1 // the collector resumes only after the client has gone on
+	style := (cas / 3) % 3
+	sc, err := newScenario(gen, cas, r, scConf{mode: mode, qcap: 1000,
+		cols: []colConf{{stalls: map[int]*stallSpec{onConn: st}}}})
+	if err != nil {
+		return nil
+	}
+	defer st.release()
+	sc.nsend = 1
+	sc.cutDesc = append(sc.cutDesc, fmt.Sprintf("stall c%d:%d/%s/style%d/late=%v", onConn, st.Frame, where, style, late))
+	// hand packs over one after the other; reports whether the client reported an error
+	hand := func(n int, size func(r *rand.Rand) int) bool {
+		failed := false
+		for _, p := range sc.more(r, 0, n, size) {
+			if sc.send(p) {
+				failed = true
+			}
+		}
+		if mode == "sac" {
+			failed = sc.sacOnce()
+		}
+		return failed
+	}
+	hand(n0, smallSize)
+	if onConn == 1 {
+		sc.cutCurrent([]string{"closed", "reset"}[r.Intn(2)])
+		for i := 0; i < 6 && int(atomic.LoadInt32(&sc.connOK)) < 2; i++ {
+			hand(1, smallSize)
+		}
+		hand(n0, smallSize)
+	}
+	if int(atomic.LoadInt32(&sc.connOK)) == onConn+1 && atomic.LoadInt32(&sc.connected) == 1 {
+		sc.cl.Timeout = stallDeadline
+		total, failed := 0, false
+		for i := 0; i < 12 && total < 14<<20 && !failed; i++ {
+			k := 1
+			if mode == "sac" {
+				k = 1 + r.Intn(3)
+			}
+			ps := sc.more(r, 0, k, heavySize(style))
+			for _, p := range ps {
+				total += p.plen
+				if sc.send(p) {
+					failed = true
+				}
+			}
+			if mode == "sac" {
+				failed = sc.sacOnce()
+			}
+		}
+		sc.cl.Timeout = calmDeadline
+	}
+	if !late {
+		st.release()
+	}
+	hand(2+r.Intn(2), smallSize)
+	hand(1, smallSize)
+	st.release()
+	if mode == "sac" {
+		sc.drainAll()
+	}
+	if cas%5 == 4 && mode == "direct" {
+		sc.nondet = true
+		sc.runAll(sc.batch(r, 2, 2, smallSize))
+	}
+	hand(3, smallSize)
+	if mode == "sac" {
+		sc.drainAll()
+	}
+	return sc
+}
+
+// sacOnce calls the client's SendAndClear once; reports whether it returned an error.
+func (sc *scenario) sacOnce() bool {
+	var err error
+	if msg := core.Guard(func() { err = sc.cl.SendAndClear() }); msg != "" {
+		sc.point(core.Ev{"ev": "Panic", "s": "W", "msg": msg})
+		return true
+	}
+	return err != nil
 }
